@@ -665,6 +665,42 @@ func (g *genCase) cfCase() string {
 	return "cf " + args + " " + block
 }
 
+func (g *genCase) fsCase() string {
+	rng := g.rng
+	sets := []string{"gzip,zstd", "zstd,gzip", "gzip", "zstd", "gzip,zstd"}
+	encs := rng.Pick(sets)
+	prefer := "-"
+	if rng.Chance(1, 2) {
+		prefer = encs
+		if rng.Chance(1, 3) {
+			prefer = strings.Split(encs, ",")[0]
+		}
+	}
+	pre := rng.Pick([]string{"-", "gzip,zstd", "zstd,gzip", "gzip", "zstd", "gzip,zstd"})
+	min := pickInt(rng, []int{0, 0, 0, 1, 100, 2999, 3000, 6000})
+	file := rng.Pick([]string{"a", "a", "a", "b", "s", "c", "d", "d"})
+	method := "G"
+	if rng.Chance(1, 6) {
+		method = "H"
+	}
+	ae := "~"
+	if !rng.Chance(1, 10) {
+		switch rng.Intn(4) {
+		case 0:
+			ae = core.Hex(rng.Pick([]string{"gzip", "zstd", "gzip, zstd", "zstd, gzip", "gzip, deflate, br, zstd", "br", "identity", "*", "gzip;q=0, zstd", "zstd;q=0, gzip", "gzip;q=0.5, zstd;q=0.9"}))
+		case 1:
+			ae = core.Hex(g.rfcHeader([]string{"gzip", "zstd"}, rng.Pick([]string{"gzip", "zstd"})))
+		default:
+			ae = core.Hex(g.rfcHeader([]string{"gzip", "zstd"}, ""))
+		}
+	}
+	r := "-"
+	if rng.Chance(1, 6) {
+		r = rng.Pick([]string{"0-99", "100-199", "0-0", "2990-4000", "0-999999", "5-4"})
+	}
+	return fmt.Sprintf("fs %s %s %d %s %s %s %s %s", encs, prefer, min, pre, file, method, ae, r)
+}
+
 func (p *prop) Generate(rng *core.Rand, tier string, emit func(string)) {
 	n := 6000
 	switch tier {
@@ -684,8 +720,13 @@ func (p *prop) Generate(rng *core.Rand, tier string, emit func(string)) {
 		if i%6 == 0 {
 			emit(g.cfCase())
 		}
+		if i%12 == 5 {
+			emit(g.fsCase())
+		}
 	}
-	for _, m := range []string{"cf", "cf - - -", "cf a,,b -", "cf - gzip;", "cf - match{", "cf - match{a}b", "cf g{ -", "cf - a{b}{c}", "cf x$y -"} {
+	for _, m := range []string{"cf", "cf - - -", "cf a,,b -", "cf - gzip;", "cf - match{", "cf - match{a}b", "cf g{ -", "cf - a{b}{c}", "cf x$y -",
+		"fs gzip - 0 - a G ~", "fs gzip zstd 0 - a G ~ -", "fs br - 0 - a G ~ -", "fs gzip - 0 - z G ~ -", "fs gzip - x - a G ~ -", "fs gzip - 0 - a P ~ -",
+		"fs gzip - 0 - a G zz -", "fs gzip - 0 - a G ~ 1-", "fs gzip,gzip - 0 - a G ~ -", "fs gzip - 0 br a G ~ -", "fs gzip - 0 - a G ~ 1-2-3"} {
 		emit(m)
 	}
 }
